@@ -410,6 +410,11 @@ func (e *effectsAnalysis) checkFunc(f *ssa.Function) {
 				if bi, ok := c.Value.(*ssa.Builtin); ok {
 					switch bi.Name() {
 					case "append":
+						if sl, isSl := c.Args[0].(*ssa.Slice); isSl && sl.Max != nil && sameSSAExpr(sl.Max, sl.High, 3) {
+							// s[lo:hi:hi] has no spare capacity: append copies, it
+							// never writes into the backing array of s
+							break
+						}
 						if ok, why := e.sharedChain(c.Args[0], 0); ok {
 							e.viol("E1", f, ins.Pos(), "append to a slice loaded from "+why+" (may write into the shared backing array)")
 						} else if e.blockTaint(c.Args[0], 0) {
@@ -605,4 +610,28 @@ func init() {
 		r.NotDecided = []string{"data-race freedom of user-supplied BlockSource implementations", "a correctly locked cache would be reported (the design is immutability; no such code exists)", "aliasing through interfaces outside the package"}
 		r.Assumptions = []string{"external callees write only through the argument positions not listed as read-only", "type-based sharing: an object is shared iff it is reached through a pointer of a shared type that the function did not allocate itself"}
 	}
+}
+
+// sameSSAExpr: two SSA values denote the same pure expression (go/ssa does no
+// common-subexpression elimination): identical values, equal constants, or
+// the same operator applied to pairwise same operands.
+func sameSSAExpr(a, b ssa.Value, depth int) bool {
+	if a == b {
+		return true
+	}
+	if depth == 0 {
+		return false
+	}
+	switch x := a.(type) {
+	case *ssa.Const:
+		y, ok := b.(*ssa.Const)
+		return ok && x.Value != nil && y.Value != nil && x.Value.ExactString() == y.Value.ExactString() && types.Identical(x.Type(), y.Type())
+	case *ssa.BinOp:
+		y, ok := b.(*ssa.BinOp)
+		return ok && x.Op == y.Op && sameSSAExpr(x.X, y.X, depth-1) && sameSSAExpr(x.Y, y.Y, depth-1)
+	case *ssa.Convert:
+		y, ok := b.(*ssa.Convert)
+		return ok && types.Identical(x.Type(), y.Type()) && sameSSAExpr(x.X, y.X, depth-1)
+	}
+	return false
 }
